@@ -38,6 +38,15 @@ def zero_spec(rng, prob):
 
 
 def check_model(chk, model, info, rng, lines, pend, tol=1e-7):
+    if rng.random() < 0.3 and float(model.total) >= 1:
+        # a caller that generated synthetic records first: the model must still be the same coherent distribution afterwards
+        try:
+            with infgen.quiet(), np.errstate(all='ignore'):
+                model.synthetic_data(rows=rng.choice([None, 7, 50]))
+            info = dict(info, history='synthetic_data() called before the queries')
+            chk.count('history.synthetic_data')
+        except Exception as e:
+            chk.violation(dict(kind='exception', what='synthetic_data ' + common.exc_kind(e)), 'synthetic_data raised %s: %s' % (common.exc_kind(e), str(e)[:80]), info, found_input=True)
     case = infgen.model_to_case(model)
     attrs = case['attrs']
     ids = case['ids']
@@ -168,7 +177,7 @@ def main(chk):
             except Exception as e:
                 chk.violation(dict(kind='exception', engine=c['engine'], what=common.exc_kind(e)), 'corpus case raised %s' % common.exc_kind(e), c, found_input=True)
     for it in range(n):
-        prob = infgen.gen_problem(rng, allow_empty=True)
+        prob = infgen.gen_problem(rng, allow_empty=True) if it % 9 != 4 else infgen.gen_problem(rng, max_attrs=5, max_cells=400, force_ring=True)   # chordless 5-ring of measured pairs
         engine = ['MD', 'RDA', 'IG'][it % 3]
         iters = rng.choice([1, 2, 50])
         zeros = zero_spec(rng, prob) if rng.random() < (0.4 if prob['ms'] else 0.7) else {}
